@@ -53,6 +53,8 @@ def direct_checks(c, res, kinds):
         if "term" in kinds:
             out.append(("term", "the solver call did not return within the watchdog"))
         return out
+    if res[0] == "skipped":
+        return out
     if res[0] == "crash":
         out.append(("crash", "the solver process died: " + str(res[1])))
         return out
